@@ -86,6 +86,8 @@ MUTANTS = {
     'revert_F9_thousands_separators': ('C14', {'row_malformed', 'stats_mismatch'}, 'git:31af434', 'value with separators tears the row'),
     'revert_F10_missing_output_skipped': ('C14', {'row_malformed'}, 'git:fc44f1f', 'column dropped when the report lacks an output'),
     'revert_F7_cli_exit_0_on_bare_sys_exit': ('C20', {'exit_status'}, 'git:9802755', 'bare sys.exit() -> exit status 0'),
+    'hip_parser_drops_exponent': ('C10', {'parse_mismatch'}, [
+        ('src/hip_ra/__init__.py', "([0-9eE.+-]+)", "([0-9.+-]+)")], 'HIP-RA-X fields printed in scientific notation vanish from the client result'),
     'cli_exit_0_on_failure': ('C20', {'exit_status'}, [
         (MAIN, "rc = 1\ntry:\n    geophires.main()\n    rc = 0\nexcept SystemExit:", "rc = 0\ntry:\n    geophires.main()\nexcept Exception as e:\n    print(e)\nexcept SystemExit:")],
         'failure swallowed'),
